@@ -11,6 +11,7 @@
         netaddr= - | <canonical key hex>             key of get_verified_by_address(source address)
      -> dropped-prefix | dropped-short | no-handler | other <kind> | stuck
       | called <peer key> <wd 0|1> <payload bytes> | called-addr <wd 0|1> | rejected <stage>
+        each optionally followed by ` touched=<key>`: the stored Peer whose address book the wrapper updated
    pack <prefix> <msgid> <pub> <body> <signature>   -> <datagram>     (Gen.ezrPack with a signer that returns <signature>)
 -/
 import Ipv8.Base.Proto
@@ -23,6 +24,7 @@ def stageName : Stage → String
 def kindName : Kind → String
   | .signed => "signed" | .signedWd => "signedWd" | .unsigned => "unsigned" | .unsignedWd => "unsignedWd"
   | .deprecated => "deprecated" | .cell => "cell" | .cellDirect => "cellDirect" | .raw => "raw"
+  | .rawOther => "rawOther"
 
 def showOutcome : Outcome Bytes → String
   | .called k p wd => s!"called {Proto.toHex k} {if wd.isSome then 1 else 0} {Proto.toHex p}"
@@ -31,7 +33,12 @@ def showOutcome : Outcome Bytes → String
   | .rejected st => s!"rejected {stageName st}"
   | .stuck => "stuck"
 
-def genProgs : Progs := Gen.progs
+/-- the stored Peer the wrapper of handler `h` touches for this datagram (model: `touchedBy`) -/
+def touchedFor (_o : Overlay) (E : Env Bytes) (data : Bytes) (h : Handler) : Option Bytes :=
+  match h.kind with
+  | .signed => touchedBy E Gen.progs.signed data
+  | .signedWd => touchedBy E Gen.progs.signedWd data
+  | _ => none
 
 def parseAnswer (s : String) : Option (Option (Nat × Bytes)) :=
   if s == "none" then some none else
@@ -44,7 +51,7 @@ def parseAnswer (s : String) : Option (Option (Nat × Bytes)) :=
 
 def bitAt (s : String) (i : Nat) : Bool := (s.toList.getD i '0') == '1'
 
-def mkEnv (data : Bytes) (parse : Option (Nat × Bytes)) (verify : Bool) (dec : Bool) (net : Option Bytes)
+def mkEnv (data : Bytes) (parse : Option (Nat × Bytes)) (verify : Bool) (dec decAlt : Bool) (net : Option Bytes)
     (netAddr : Option Bytes) : Env Bytes :=
   let kf := keyField Gen.strictVarlen data
   { S := { parse := fun b => if some b == kf then parse.map (·.2) else none,
@@ -53,6 +60,7 @@ def mkEnv (data : Bytes) (parse : Option (Nat × Bytes)) (verify : Bool) (dec : 
     strict := Gen.strictVarlen,
     verifySig := Gen.verifySignature,
     decode := fun buf off => if dec then some (buf.drop off) else none,
+    decodeAlt := fun buf off => if decAlt then some (buf.drop off) else none,
     net := fun b => if some b == kf then net else none,
     netAddr := netAddr }
 
@@ -61,17 +69,16 @@ def recv (ovName : String) (data : Bytes) (parse : Option (Nat × Bytes)) (verif
   match findOverlay Gen.overlays ovName with
   | none => "unknown-overlay"
   | some o =>
-    let E0 := mkEnv data parse verify (bitAt dec 0) net netAddr
-    let E1 := mkEnv data parse verify (bitAt dec 1) net netAddr
-    match onPacket genProgs o (fun _ => E0) Gen.prefixLen Gen.msgIdOffset data with
+    -- the function the theorems are about, nothing else: `onPacket` with the generated programs and offsets
+    let E := mkEnv data parse verify (bitAt dec 0) (bitAt dec 1) net netAddr
+    match onPacket Gen.progs o (fun _ => E) Gen.prefixLen Gen.msgIdOffset data with
     | .droppedPrefix => "dropped-prefix"
     | .droppedShort => "dropped-short"
     | .noHandler => "no-handler"
-    | .handler _ out => showOutcome out
-    | .other h =>
-      if h.kind == .raw && Gen.rawModelled.contains (ovName, h.msgId) then
-        showOutcome (discRaw E0 E1 Gen.ezUnpackAuth Gen.discRawCatchesDecodeErrors data)
-      else s!"other {kindName h.kind}"
+    | .handler h out =>
+      let t := match touchedFor o E data h with | some k => " touched=" ++ Proto.toHex k | none => ""
+      showOutcome out ++ t
+    | .other h => s!"other {kindName h.kind}"
 
 def constSigner (pub sig : Bytes) : Signer :=
   { parse := fun b => some b, sigLen := fun _ => sig.length, verify := fun _ _ _ => true,
